@@ -487,7 +487,8 @@ func (st *runState) checkDocument(r *reqRec, add func(p, oracle, sig, detail str
 		return
 	}
 	switch rq.Kind {
-	case "query_range", "query", "labels", "label_values", "series", "prom_labels", "prom_label_values", "prom_series", "prom_range", "prom_instant", "tags", "tag_values", "tags_v2", "tag_values_v2", "search":
+	case "query_range", "query", "labels", "label_values", "series", "prom_labels", "prom_label_values", "prom_series", "prom_range", "prom_instant", "tags", "tag_values", "tags_v2", "tag_values_v2", "search",
+		"trace", "trace_json", "prof_types", "prof_label_names", "prof_label_values", "prof_select_series", "prof_merge", "prof_series", "prof_merge_profiles", "render_diff":
 	default:
 		return
 	}
